@@ -108,6 +108,7 @@ pub extern "C" fn anoncreds_encode_credential_attributes(
     result_p: *mut *const c_char,
 ) -> ErrorCode {
     catch_error(|| {
+        check_useful_c_ptr!(result_p);
         let mut result = String::new();
         for raw_val in attr_raw_values.as_slice() {
             let enc_val = encode_credential_attribute(
